@@ -6,6 +6,7 @@ import (
 	"io"
 	"net"
 	"sync"
+	"sync/atomic"
 	"time"
 
 	"github.com/gopcua/opcua"
@@ -265,7 +266,7 @@ type traceEv struct {
 }
 
 func runStress(cs Case) outcome {
-	class := fmt.Sprintf("stress/%s/callers=%d/rounds=%d/stride=%d/wrap=%v/big=%v", cs.Level, cs.Callers, cs.Rounds, cs.Stride, cs.Wrap, cs.Big)
+	class := fmt.Sprintf("stress/%s/callers=%d/rounds=%d/stride=%d/wrap=%v/big=%v/failshare=%d", cs.Level, cs.Callers, cs.Rounds, cs.Stride, cs.Wrap, cs.Big, cs.FailShare)
 	seed := uint32(100000 + vfgo.Rand(int64(cs.N)).Intn(1<<24))
 	if cs.Wrap {
 		seed = ^uint32(0) - uint32(cs.Callers*cs.Rounds/2)
@@ -276,6 +277,7 @@ func runStress(cs Case) outcome {
 	}
 	defer s.closeFn()
 	var kept []callRes // every delivered response is kept and compared again at the end
+	failCalls := 0
 	rnd := vfgo.Rand(int64(cs.N) + 77)
 	var trace []traceEv
 	var tmu sync.Mutex
@@ -295,6 +297,82 @@ func runStress(cs Case) outcome {
 	usedIDs := map[uint32]int{}
 	lid, _ := s.idOf(longTag)
 	usedIDs[lid] = longTag
+	// ScCorr InvokeCancelled, concurrently with the dispatch of the other callers' responses: callers
+	// whose context has already ended, or ends while the (multi-chunk) request is being written.
+	// They must return the context error promptly, release their slot and disturb nobody.
+	nFail := 0
+	if cs.FailShare > 1 {
+		nFail = (cs.Callers + cs.FailShare - 2) / (cs.FailShare - 1)
+	}
+	type failRes struct {
+		n    int
+		bad  string
+		slow time.Duration
+	}
+	failCh := make(chan failRes, nFail+1)
+	var stopFail int32
+	defer atomic.StoreInt32(&stopFail, 1)
+	const prompt = 10 * time.Second
+	for f := 0; f < nFail; f++ {
+		go func(f int) {
+			fr := failRes{}
+			frnd := vfgo.Rand(int64(cs.N)*1000 + int64(f))
+			for i := 1; atomic.LoadInt32(&stopFail) == 0 || i <= 3; i++ {
+				ctx, cancel := context.WithCancel(context.Background())
+				extra := 0
+				if (i+f)%2 == 0 {
+					cancel() // already ended
+				} else {
+					// ends while the request (about ten chunks) is being written, or right after
+					cancel()
+					ctx, cancel = context.WithTimeout(context.Background(), time.Duration(50+frnd.Intn(1500))*time.Microsecond)
+					extra = 4000
+				}
+				r := s.callN(ctx, 900000+f*1000+i%1000, 120*time.Second, extra)
+				cancel()
+				fr.n++
+				if r.out != "ctx" && fr.bad == "" {
+					fr.bad = fmt.Sprintf("call %d of failing caller %d returned %q (%s)", i, f, r.out, r.err)
+				}
+				if r.dur > fr.slow {
+					fr.slow = r.dur
+				}
+				if i > 100000 {
+					break
+				}
+				time.Sleep(time.Duration(frnd.Intn(300)) * time.Microsecond)
+			}
+			failCh <- fr
+		}(f)
+	}
+	failDone := false
+	collectFail := func() *outcome {
+		if failDone {
+			return nil
+		}
+		failDone = true
+		atomic.StoreInt32(&stopFail, 1)
+		total := 0
+		for f := 0; f < nFail; f++ {
+			select {
+			case fr := <-failCh:
+				total += fr.n
+				if fr.bad != "" {
+					return &outcome{status: "violation", class: class, key: "outcome-of-request-with-ended-context",
+						detail: "a request whose context had ended / ended during the send, issued while other callers' responses were dispatched: " + fr.bad}
+				}
+				if fr.slow > prompt {
+					return &outcome{status: "violation", class: class, key: "timeout-request-with-ended-context-returns-late",
+						detail: fmt.Sprintf("a request whose context ended before or during the send returned only after %s", fr.slow)}
+				}
+			case <-time.After(3 * syncWait):
+				return &outcome{status: "violation", class: class, key: "call-did-not-return",
+					detail: "a caller whose requests have an ended context did not return"}
+			}
+		}
+		failCalls = total
+		return nil
+	}
 	for round := 1; round <= cs.Rounds; round++ {
 		res := make([]callRes, cs.Callers+1)
 		var wg sync.WaitGroup
@@ -365,6 +443,9 @@ func runStress(cs Case) outcome {
 			}
 		}
 	}
+	if o := collectFail(); o != nil {
+		return *o
+	}
 	// finally answer the long-lived call
 	mid++
 	if err := s.respond("ok", lid, longTag, mid); err != nil {
@@ -388,5 +469,5 @@ func runStress(cs Case) outcome {
 				detail: fmt.Sprintf("the %d byte ByteString of the response tag=%d mid=%d no longer equals what the server sent after later messages were received", len(r.payload), r.gotTag, r.gotMid)}
 		}
 	}
-	return outcome{status: "ok", class: class, obs: map[string]any{"calls": cs.Callers*cs.Rounds + 1, "responses": mid, "payload_bytes": s.paySize}}
+	return outcome{status: "ok", class: class, obs: map[string]any{"calls": cs.Callers*cs.Rounds + 1, "responses": mid, "payload_bytes": s.paySize, "failing_callers": nFail, "ended_context_calls": failCalls}}
 }
